@@ -42,7 +42,11 @@ def setup():
     diags = core.regen()
     for k, v in diags.items():
         print(f"[setup] translator refused {k}: {v}")
-    ok, log = core.make(None, timeout=3000)
+    # build the closure of every property file (and of the extraction files), not stray work-in-progress files
+    import glob
+    targets = [os.path.relpath(p, core.COQ) + "o" for p in
+               sorted(glob.glob(os.path.join(core.COQ, "Props", "C*.v")) + glob.glob(os.path.join(core.COQ, "Extract", "*.v")))]
+    ok, log = core.make(targets, timeout=3000)
     if not ok:
         print(log)
         print("[setup] coq build FAILED")
@@ -87,11 +91,19 @@ def check(pid, tier, seed, replay=None):
     hits = core.grep_forbidden()
     if hits:
         ctx.broken.append("forbidden vernacular: " + "; ".join(hits[:5]))
-    if ok and hasattr(mod, "build_extra"):
-        err = mod.build_extra(ctx)
-        if err:
-            ctx.broken.append(err)
-            ok = False
+    if ok:
+        import modelrun
+        for area in getattr(mod, "AREAS", []):
+            exe = modelrun.binary(area)
+            src = os.path.join(core.VERIF, "ocaml", "build", area, "extracted.ml")
+            stale = (not os.path.exists(exe)) or (os.path.exists(src) and os.path.getmtime(src) > os.path.getmtime(exe)) \
+                or os.path.getmtime(os.path.join(core.VERIF, "ocaml", "areas", area + ".ml")) > os.path.getmtime(exe)
+            if stale:
+                with core.Lock("ocaml"):
+                    bok, blog = modelrun.build(area)
+                if not bok:
+                    ctx.broken.append(f"OCaml driver for area {area} failed to build: {blog[-600:]}")
+                    ok = False
 
     # 3. correspondence and end-to-end search
     try:
